@@ -81,6 +81,27 @@ def success_body(op, text):
         ret = [insts[0].path.tocimxml(ignore_host=True, ignore_namespace=True)]
     elif op in ("DeleteInstance", "ModifyInstance"):
         return _simple_rsp(X.IMETHODRESPONSE(op, None)).toxml().encode("utf-8")
+    elif op in ("PullInstances", "OpenQueryInstances"):
+        ret = [i.tocimxml(ignore_path=True) for i in insts]
+        pv = [X.PARAMVALUE("EndOfSequence", X.VALUE("TRUE"), "boolean"),
+              X.PARAMVALUE("EnumerationContext", None, "string")]
+        return _simple_rsp(X.IMETHODRESPONSE(
+            op, [X.IRETURNVALUE(ret)] + pv)).toxml().encode("utf-8")
+    elif op == "PullInstancePaths":
+        ret = [i.path.tocimxml() for i in insts]
+        pv = [X.PARAMVALUE("EndOfSequence", X.VALUE("TRUE"), "boolean"),
+              X.PARAMVALUE("EnumerationContext", None, "string")]
+        return _simple_rsp(X.IMETHODRESPONSE(
+            op, [X.IRETURNVALUE(ret)] + pv)).toxml().encode("utf-8")
+    elif op == "ExecQuery":
+        ret = [i.tocimxml(ignore_path=True) for i in insts]
+    elif op == "EnumerateClasses":
+        ret = [CIMClass("VT_Thing", properties=[
+            CIMProperty("s", text, type="string")]).tocimxml()]
+    elif op in ("GetQualifier", "EnumerateQualifiers"):
+        ret = [pywbem.CIMQualifierDeclaration(
+            "Description", "string", value=text,
+            scopes={"CLASS": True, "PROPERTY": True}).tocimxml()]
     elif op in ("OpenEnumerateInstances", "PullInstancesWithPath"):
         ret = [X.VALUE_INSTANCEWITHPATH(i.path.tocimxml(),
                                         i.tocimxml(ignore_path=True))
@@ -113,9 +134,12 @@ RESPONSES = ["ok_ascii", "ok_multibyte", "cimerror", "illformed_xml", "bad_utf8"
 MULTI = "Grüße €日本語 \U0001F600 café " * 3
 
 
+WIRE_NAME = {"IterEnumerateInstances": "EnumerateInstances"}
+
+
 class Script:
     def __init__(self, op, rclass):
-        self.op = op
+        self.op = WIRE_NAME.get(op, op)
         self.rclass = rclass
 
     def respond(self):
@@ -209,6 +233,23 @@ OPS = {
     "DeleteInstance": lambda c: c.DeleteInstance(IPATH),
     "OpenEnumerateInstances": lambda c: c.OpenEnumerateInstances(
         "VT_Thing", MaxObjectCount=10),
+    "PullInstancesWithPath": lambda c: c.PullInstancesWithPath(
+        ("ctx-1", NS), MaxObjectCount=10),
+    "PullInstancePaths": lambda c: c.PullInstancePaths(
+        ("ctx-1", NS), MaxObjectCount=10),
+    "PullInstances": lambda c: c.PullInstances(("ctx-1", NS),
+                                               MaxObjectCount=10),
+    "OpenQueryInstances": lambda c: c.OpenQueryInstances(
+        "WQL", "SELECT * FROM VT_Thing", MaxObjectCount=10),
+    "ExecQuery": lambda c: c.ExecQuery("WQL", "SELECT * FROM VT_Thing"),
+    "References": lambda c: c.References(IPATH),
+    "EnumerateClasses": lambda c: c.EnumerateClasses(),
+    "GetQualifier": lambda c: c.GetQualifier("Description"),
+    "EnumerateQualifiers": lambda c: c.EnumerateQualifiers(),
+    "ModifyInstance": lambda c: c.ModifyInstance(CIMInstance(
+        "VT_Thing", properties=[CIMProperty("s", MULTI)], path=IPATH)),
+    "IterEnumerateInstances": lambda c: list(c.IterEnumerateInstances(
+        "VT_Thing", MaxObjectCount=10)),
     "InvokeMethod": lambda c: c.InvokeMethod(
         "DoIt", CIMClassName("VT_Thing", namespace=NS), InText=MULTI),
 }
@@ -332,9 +373,11 @@ def run_cell_history(ctx, cfg, cells, workdir, idx):
             bare = outcome_of(OPS[op], bare_conn)
             ob.ad.script = Script(op, rclass)
             obs = outcome_of(OPS[op], ob.conn)
-            cnt, exc_cnt = stat_snapshot(ob.conn, op) if cfg["stats"] \
+            statop = WIRE_NAME.get(op, op)     # name the statistics use
+            cnt, exc_cnt = stat_snapshot(ob.conn, statop) if cfg["stats"] \
                 else (0, 0)
-            ev = dict(op=op, stats=cfg["stats"], bare=bare, obs=obs, cnt=cnt,
+            ev = dict(op=statop, stats=cfg["stats"], bare=bare, obs=obs,
+                      cnt=cnt,
                       exc_cnt=exc_cnt,
                       raw_req=dg(ob.conn.last_raw_request),
                       wire_req=dg(_strip_decl(ob.ad.sent)),
